@@ -426,3 +426,114 @@ Proof.
   intros H fam r1 s o Hsub Hp. destruct (H r1 Hsub) as [nd [a [Hn [Hs [Ha Hk]]]]].
   exact (PegT_atom_mode G att vt r1 nd a Hn Hs Ha Hk true false fam s o TFail Hp).
 Qed.
+
+(* ---------- without a vetoing action the verdict does not depend on the apply mode ---------- *)
+Definition sv (x y : tres) : Prop :=
+  match x, y with
+  | TOk s o _, TOk s' o' _ => s = s' /\ o = o'
+  | TFail, TFail => True
+  | TRaise, TRaise => True
+  | _, _ => False
+  end.
+Lemma sv_tcat l l' x y : sv x y -> sv (tcat l x) (tcat l' y).
+Proof. destruct x, y; simpl; auto. Qed.
+Lemma sv_refl x : sv x x.
+Proof. destruct x; simpl; auto. Qed.
+Lemma sv_nok x y : sv x y -> nok x -> nok y.
+Proof. destruct x, y; simpl; auto. Qed.
+Lemma sv_nfail x y : sv x y -> x <> TFail -> y <> TFail.
+Proof. destruct x, y; simpl; intros; try contradiction; congruence. Qed.
+
+Section NoVeto.
+Variable G : grammar.
+Variable att : nat -> rid -> skind.
+Variable vt : nat -> rid -> N -> N -> bool.
+Hypothesis Hnv : forall fam r b e, vt fam r b e = false.
+
+Lemma sv_twrap A A' fam r o x y : sv x y -> sv (twrap att vt A fam r o x) (twrap att vt A' fam r o y).
+Proof.
+  destruct x as [s1 o1 l1| |], y as [s2 o2 l2| |]; simpl; try tauto. intros [-> ->].
+  destruct A, A'; destruct (att fam r) as [|sp isb]; rewrite ?Hnv, ?andb_false_r; simpl; auto.
+Qed.
+
+Ltac inst_ih A' :=
+  repeat match goal with
+  | IH : forall a : bool, exists y, _ |- _ =>
+      let y1 := fresh "y" in let P1 := fresh "P" in let S1 := fresh "S" in
+      let y2 := fresh "y" in let P2 := fresh "P" in let S2 := fresh "S" in
+      let y3 := fresh "y" in let P3 := fresh "P" in let S3 := fresh "S" in
+      destruct (IH A') as [y1 [P1 S1]]; destruct (IH false) as [y2 [P2 S2]]; destruct (IH true) as [y3 [P3 S3]]; clear IH
+  end.
+Ltac norm_sv :=
+  repeat match goal with
+  | S : sv (TOk _ _ _) ?y |- _ => destruct y; simpl in S; [destruct S; subst | contradiction | contradiction]
+  | S : sv TFail ?y |- _ => destruct y; simpl in S; [contradiction | clear S | contradiction]
+  | S : sv TRaise ?y |- _ => destruct y; simpl in S; [contradiction | contradiction | clear S]
+  end.
+
+Lemma PegT_mode_all :
+  (forall A fam r s o x, PegT G att vt A fam r s o x -> forall A', exists y, PegT G att vt A' fam r s o y /\ sv x y) /\
+  (forall A fam h rs s o x, TBody G att vt A fam h rs s o x -> forall A', exists y, TBody G att vt A' fam h rs s o y /\ sv x y) /\
+  (forall A fam rs s o x, TSeq G att vt A fam rs s o x -> forall A', exists y, TSeq G att vt A' fam rs s o y /\ sv x y) /\
+  (forall A fam rs s o x, TSor G att vt A fam rs s o x -> forall A', exists y, TSor G att vt A' fam rs s o y /\ sv x y) /\
+  (forall A fam rs s o b x, TPar G att vt A fam rs s o b x -> forall A', exists y, TPar G att vt A' fam rs s o b y /\ sv x y) /\
+  (forall A fam rs s o x, TStar G att vt A fam rs s o x -> forall A', exists y, TStar G att vt A' fam rs s o y /\ sv x y) /\
+  (forall A fam r s o x, TUntil1 G att vt A fam r s o x -> forall A', exists y, TUntil1 G att vt A' fam r s o y /\ sv x y) /\
+  (forall A fam r r2 s o x, TUntil2 G att vt A fam r r2 s o x -> forall A', exists y, TUntil2 G att vt A' fam r r2 s o y /\ sv x y) /\
+  (forall A fam k r s o x, TRepOpt G att vt A fam k r s o x -> forall A', exists y, TRepOpt G att vt A' fam k r s o y /\ sv x y) /\
+  (forall A fam r rs s o x, TSStrict G att vt A fam r rs s o x -> forall A', exists y, TSStrict G att vt A' fam r rs s o y /\ sv x y).
+Proof.
+  apply PegT_mutind; intros; inst_ih A'; norm_sv.
+  all: try (eexists; split;
+     [ econstructor; first [eassumption | (eapply sv_nok; [eassumption | assumption]) | (eapply sv_nfail; [eassumption | assumption])]
+     | first [ apply sv_twrap; assumption
+             | repeat apply sv_tcat; first [assumption | apply sv_refl]
+             | match goal with |- sv (match ?x with _ => _ end) (match ?y with _ => _ end) =>
+                 destruct x, y; simpl in *; try contradiction; try (destruct (catches_parse _)); simpl; intuition congruence end ] ]; fail).
+Qed.
+
+Theorem PegT_mode_indep A A' fam r s o x : PegT G att vt A fam r s o x -> exists y, PegT G att vt A' fam r s o y /\ sv x y.
+Proof. intros H. exact (proj1 PegT_mode_all A fam r s o x H A'). Qed.
+Lemma rmm_stable_no_veto : rmm_stable G att vt.
+Proof.
+  intros fam r1 s o _ H. destruct (PegT_mode_indep true false fam r1 s o TFail H) as [y [P S]].
+  destruct y; simpl in S; try contradiction. exact P.
+Qed.
+End NoVeto.
+
+(* ---------- with actions off and no enable<> below, the reference derivation carries no action:
+   look-ahead (at, not_at), disable<> sections and runs started with apply_mode::nothing contribute nothing ---------- *)
+Definition acts_nil (x : tres) : Prop := match x with TOk _ _ l => l = [] | _ => True end.
+Lemma acts_nil_tcat l x : l = [] -> acts_nil x -> acts_nil (tcat l x).
+Proof. intros ->. destruct x; simpl; auto. Qed.
+Lemma acts_nil_twrap att vt fam r o x : acts_nil x -> acts_nil (twrap att vt false fam r o x).
+Proof. rewrite twrap_off. auto. Qed.
+
+Lemma PegT_off_nil_all G att vt : (forall r nd, nth_error G r = Some nd -> nhead nd <> HEnable) ->
+  (forall A fam r s o x, PegT G att vt A fam r s o x -> A = false -> acts_nil x) /\
+  (forall A fam h rs s o x, TBody G att vt A fam h rs s o x -> A = false -> h <> HEnable -> acts_nil x) /\
+  (forall A fam rs s o x, TSeq G att vt A fam rs s o x -> A = false -> acts_nil x) /\
+  (forall A fam rs s o x, TSor G att vt A fam rs s o x -> A = false -> acts_nil x) /\
+  (forall A fam rs s o b x, TPar G att vt A fam rs s o b x -> A = false -> acts_nil x) /\
+  (forall A fam rs s o x, TStar G att vt A fam rs s o x -> A = false -> acts_nil x) /\
+  (forall A fam r s o x, TUntil1 G att vt A fam r s o x -> A = false -> acts_nil x) /\
+  (forall A fam r r2 s o x, TUntil2 G att vt A fam r r2 s o x -> A = false -> acts_nil x) /\
+  (forall A fam k r s o x, TRepOpt G att vt A fam k r s o x -> A = false -> acts_nil x) /\
+  (forall A fam r rs s o x, TSStrict G att vt A fam r rs s o x -> A = false -> acts_nil x).
+Proof.
+  intros Hno. apply PegT_mutind; intros; subst;
+  repeat match goal with
+  | IH : ?a = ?a -> _ |- _ => specialize (IH eq_refl)
+  | IH : false = false -> _ |- _ => specialize (IH eq_refl)
+  end;
+  try (match goal with H : HEnable <> HEnable |- _ => exfalso; apply H; reflexivity end).
+  all: try (simpl in *; subst; simpl; auto; fail).
+  all: try (repeat apply acts_nil_tcat; simpl in *; auto; fail).
+  all: try (apply acts_nil_twrap; match goal with IH : _ <> HEnable -> _ |- _ => apply IH; eapply Hno; eassumption end).
+  all: try (match goal with |- acts_nil (tatom _ _ ?x) => destruct x; simpl; auto end).
+  all: try (match goal with |- acts_nil (match ?x with _ => _ end) => destruct x; simpl in *; subst; simpl; auto; try (destruct (catches_parse _); simpl; auto) end).
+Qed.
+
+Theorem PegT_off_nil G att vt : (forall r nd, nth_error G r = Some nd -> nhead nd <> HEnable) ->
+  forall fam r s o s' o' l, PegT G att vt false fam r s o (TOk s' o' l) -> l = [].
+Proof. intros Hno fam r s o s' o' l H. exact (proj1 (PegT_off_nil_all G att vt Hno) false fam r s o _ H eq_refl). Qed.
